@@ -39,7 +39,7 @@ Definition observe (pre : cfg) (inputs : list (Z * bool)) : list (list section) 
   | None => [[[err_row]]]
   | Some c =>
       [ [[[b2z (cfg_ok c)]]];
-        [tys (declared c (c_exit c)); map (fun t => [t]) (functype_outputs (c_ret c) inputs)] ]
+        [tys (declared c (c_exit c)); map (fun t => [t]) (functype_outputs (map fst (c_ret c)) inputs)] ]
       :: map (block_obs c) (index_from 0 (c_bbs c))
   end.
 
